@@ -303,8 +303,8 @@ PROPS = {
                 "pass of the specification's table whose lattice contains it) with lattice_mod8 (a pixel's pass depends only on the residues, all x, y), interlacedConstants_is_spec (deinterlace_image uses the "
                 "table's shifts and steps), incrementPass_is_spec (for every w, h >= 1 the next pass is the next non-empty one of the specification, or the end), pixel_in_exactly_its_pass and "
                 "adam7Order_each_once (for all sizes every pixel position occurs exactly once in the Adam7 storage order, in the pass interlace_image picks). interlace_is_spec_bytes: for pixels of whole bytes (8/16-bit samples) and every size, interlace_image writes pass after pass, row "
-                "after row, exactly the pixels on the pass's lattice, whole and in order (block-filter lemma over the bit stream, bytesOfBits∘bitsOf = id). The de-interlacing state machine and the "
-                "sub-byte gather loops themselves "
+                "after row, exactly the pixels on the pass's lattice, whole and in order (block-filter lemma over the bit stream, bytesOfBits∘bitsOf = id). interlace_row_pixels: at ANY bit depth the bits a row contributes to a pass are its pixels on the "
+                "lattice, whole and in order, padding never selected. The de-interlacing state machine itself "
                 "(their composition to the identity) rest on the exhaustive-up-to-bound correspondence and the direct comparison with specification-derived placement in the same stream. "
                 "Trusted: Lean kernel, correspondence tie (tested), harness reference geometry.",
         "technique": "Lean 4 proof (omega over unbounded sizes) + exhaustive-to-bound model/implementation correspondence",
